@@ -78,3 +78,122 @@ Proof.
   - intros m Hm. exact Hm.
   - left. reflexivity.
 Qed.
+
+(* ====================================================================================================
+   Kernel IV: user constraints and variables, switching the solver interface, Model.merge
+   (coq/theories/Extras; correspondence: harness/extras.py run_c01, Extras/Check.v codes 1, 2, 8).
+   The solver is exactly the flux-balance problem of the content PLUS what the user added (the ledger of
+   Extras/Model.v), each user item exactly as added, along every history of these operations.
+   ==================================================================================================== *)
+From Cobra.Extras Require Model Inv Proofs Effects Ctx Examples.
+Module ExtrasKernel.
+Import Cobra.Extras.Model Cobra.Extras.Inv Cobra.Extras.Proofs Cobra.Extras.Effects Cobra.Extras.Ctx Cobra.Extras.Examples.
+
+(* what the invariant says about the solver, spelled out: exactly the two variables of every reaction of the model with
+   the bounds of update_variable_bounds and the user variables with their bounds; exactly one [0, 0] row per metabolite
+   with the stoichiometric coefficients (c forward, -c reverse, no user variable) and the user constraints with their
+   bounds and their terms; terms only over variables that exist; an objective over net fluxes of reactions of the model *)
+Theorem C01_extras_meaning : forall s, Inv s ->
+  (forall r, vin s (VF r) = rin s r /\ vin s (VR r) = rin s r) /\
+  (forall r, rin s r = true -> (vb s (VF r), vb s (VR r)) = split (rb s r)) /\
+  (forall k, vin s (VU k) = is_some (uv s k) /\ (forall b, uv s k = Some b -> vb s (VU k) = b)) /\
+  (forall m, cin s (CM m) = min s m /\ (min s m = true -> cb s (CM m) = (Some 0, Some 0))) /\
+  (forall m r, co s (CM m) (VF r) = (if rin s r && min s m then sto s r m else 0) /\
+               co s (CM m) (VR r) = (if rin s r && min s m then - sto s r m else 0)) /\
+  (forall m k, co s (CM m) (VU k) = 0) /\
+  (forall k, cin s (CU k) = is_some (uc s k) /\ (forall b, uc s k = Some b -> cb s (CU k) = b)) /\
+  (forall k v, co s (CU k) v = uct s k v /\ (uct s k v <> 0 -> cin s (CU k) = true /\ vin s v = true)) /\
+  (forall v, vin s v = false -> oc s v = 0 /\ forall c, co s c v = 0) /\
+  (forall r, oc s (VR r) = - oc s (VF r)) /\ (forall k, oc s (VU k) = 0).
+Proof.
+  intros s H.
+  pose proof (I_vin s H) as Hv. pose proof (I_vb s H) as Hb. pose proof (I_cin s H) as Hc. pose proof (I_cb s H) as Hcb.
+  pose proof (I_co s H) as Hco. pose proof (I_lg s H) as Hlg.
+  split. { intros r. rewrite !Hv. split; reflexivity. }
+  split. { intros r Hr. rewrite !Hb. cbn [exp_vb]. rewrite Hr. destruct (split (rb s r)); reflexivity. }
+  split. { intros k. split; [rewrite Hv; reflexivity|]. intros b E. rewrite Hb. cbn [exp_vb]. rewrite E. reflexivity. }
+  split. { intros m. split; [rewrite Hc; reflexivity|]. intros E. rewrite Hcb. cbn [exp_cb]. rewrite E. reflexivity. }
+  split. { intros m r. rewrite !Hco. split; reflexivity. }
+  split. { intros m k. rewrite Hco. reflexivity. }
+  split. { intros k. split; [rewrite Hc; reflexivity|]. intros b E. rewrite Hcb. cbn [exp_cb]. rewrite E. reflexivity. }
+  split. { intros k v. split; [rewrite Hco; reflexivity|]. intros E. rewrite Hc, Hv. cbn [exp_cin]. apply Hlg, E. }
+  split. { intros v E. split; [apply (I_oc_abs s H), E|]. intros c. rewrite Hco. rewrite Hv in E.
+           destruct c as [m|k]; cbn [exp_co].
+           - destruct v as [r|r|k]; cbn [exp_vin] in E; [rewrite E; reflexivity|rewrite E; reflexivity|reflexivity].
+           - destruct (Z.eq_dec (uct s k v) 0) as [E0|E0]; [exact E0|]. destruct (Hlg k v E0) as [_ E2]. congruence. }
+  split. { apply (I_oc_net s H). }
+  apply (I_oc_user s H).
+Qed.
+Print Assumptions C01_extras_meaning.
+
+Theorem C01_extras_init : forall e, Inv (init e).
+Proof. exact init_Inv. Qed.
+Print Assumptions C01_extras_init.
+
+(* every operation (user variables / constraints added and removed by object and by name, reactions added and removed
+   while user constraints mention them, bounds, objective, direction, the solver switch, merge in every mode) *)
+Theorem C01_extras_step : forall s o, Inv s -> op_ok s o -> Inv (fst (step vfix s o)).
+Proof. exact step_Inv. Qed.
+Print Assumptions C01_extras_step.
+
+Theorem C01_extras_history : forall ops s, Inv s -> ok_run vfix s ops -> Inv (run vfix ops s).
+Proof. exact run_Inv. Qed.
+Print Assumptions C01_extras_history.
+
+(* ... and with `with model:` blocks (specification level: Exit puts the saved state back) *)
+Theorem C01_extras_history_with_contexts : forall ops c, CInv c -> cok_run c ops -> CInv (crun vfix ops c).
+Proof. exact crun_CInv. Qed.
+Print Assumptions C01_extras_history_with_contexts.
+
+(* switching the interface: nothing but the tag changes -- every variable, bound, row, coefficient, the objective, the
+   content and the user items are what they were (the problem is rebuilt by names; under the invariant nothing is lost) *)
+Theorem C01_extras_switch_solver_effect : forall s e, Inv s ->
+  let s' := switch_solver e s in
+  exact s' = e /\
+  (forall v, vin s' v = vin s v /\ vb s' v = vb s v /\ oc s' v = oc s v) /\
+  (forall c, cin s' c = cin s c /\ cb s' c = cb s c) /\
+  (forall c v, co s' c v = co s c v) /\
+  odir s' = odir s /\ rin s' = rin s /\ rb s' = rb s /\ sto s' = sto s /\ min s' = min s /\ back s' = back s /\
+  uv s' = uv s /\ uc s' = uc s /\ uct s' = uct s.
+Proof. exact switch_solver_effect. Qed.
+Print Assumptions C01_extras_switch_solver_effect.
+
+Theorem C01_extras_switch_solver_same : forall s e, exact s = e -> switch_solver e s = s.
+Proof. exact switch_solver_same. Qed.
+Print Assumptions C01_extras_switch_solver_same.
+
+(* removing a reaction takes its two variables out of EVERY row -- also every user constraint -- and nothing else moves *)
+Theorem C01_extras_remove_reactions_effect : forall r s, rin s r = true ->
+  let s' := remove_rxn r s in
+  rin s' r = false /\ vin s' (VF r) = false /\ vin s' (VR r) = false /\
+  vb s' (VF r) = free /\ vb s' (VR r) = free /\ oc s' (VF r) = 0 /\ oc s' (VR r) = 0 /\
+  (forall c, co s' c (VF r) = 0 /\ co s' c (VR r) = 0) /\
+  (forall k, uct s' k (VF r) = 0 /\ uct s' k (VR r) = 0) /\
+  (forall m, back s' m r = false) /\
+  (forall v, v <> VF r -> v <> VR r ->
+     vin s' v = vin s v /\ vb s' v = vb s v /\ oc s' v = oc s v /\
+     (forall c, co s' c v = co s c v) /\ (forall k, uct s' k v = uct s k v)) /\
+  (forall r', r' <> r -> rin s' r' = rin s r' /\ forall m, back s' m r' = back s m r') /\
+  rb s' = rb s /\ sto s' = sto s /\ min s' = min s /\ cin s' = cin s /\ cb s' = cb s /\
+  uv s' = uv s /\ uc s' = uc s /\ odir s' = odir s /\ exact s' = exact s.
+Proof. exact remove_rxn_effect. Qed.
+Print Assumptions C01_extras_remove_reactions_effect.
+
+(* merge as found copies rows of right's metabolites that do not join the model: the invariant breaks (= the finding
+   C01-merge-foreign-metabolite-row; fixes/merge-foreign-metabolite-row.patch is the variant the theorems are about) *)
+Theorem C01_extras_merge_rows_refuted : exists s rm, Inv s /\ rm_okb s rm false = true /\
+  ~ Inv (fst (merge_result (mkV true false true) rm false 0 s)).
+Proof. exact merge_rows_refuted. Qed.
+Print Assumptions C01_extras_merge_rows_refuted.
+
+(* non-vacuity: a history using every operation (incl. a reaction removed and added again while two user constraints
+   mention it, both interfaces, a merge with overlapping identifiers / prefix / objective sum) meets the hypotheses *)
+Example C01_extras_history_nonvacuous : ok_run vfix (init false) ops /\ Inv (run vfix ops (init false)) /\
+  co (run vfix ops1 (init false)) (CU 4) (VF 2) = 0 /\ co (run vfix ops1 (init false)) (CU 4) (VF 1) = 2 /\
+  vin (run vfix ops1 (init false)) (VF 2) = true /\ exact (run vfix ops1 (init false)) = true /\
+  rin (run vfix ops (init false)) 1002 = true /\ exact (run vfix ops (init false)) = false.
+Proof.
+  split; [exact history_nonvacuous|]. split; [exact history_Inv|]. vm_compute. repeat split.
+Qed.
+Print Assumptions C01_extras_history_nonvacuous.
+End ExtrasKernel.
